@@ -22,7 +22,10 @@ RULE = ('argument values from the grammar V ::= leaf | Config(V) | '
         'arguments of a Partial over keyword and positional/*args signatures, '
         'plus aliasing variants; then every sequence of calls up to a length '
         'over {no args, override x, override y, supply missing, extra '
-        'positional}; non-trivial = contains an ArgFactory or a Config')
+        'positional}; containers also named tuples, classes derived from them '
+        'and defaultdicts; form po3 = positional-only defaults below *args '
+        'with call-time positional arguments; non-trivial = contains an '
+        'ArgFactory or a Config')
 ASSUMPTIONS = [
     'identity of two outputs of the *same* ArgFactory instance within one '
     'call is not judged (the statement is silent); results are compared as '
